@@ -352,8 +352,10 @@ def store_obligations(rep):
     m = repo.import_module(PARSER)
     cls = repo.find_class(PARSER, 'MindsDBParser')
     actions = []
+    # embedding actions are found through the grammar (every action with a rule that has a `raw_query` symbol, except the collectors of raw_query itself),
+    # not through what they call: an action that stops calling tokens_to_string must fail its obligation, not disappear
     for fd in cls.body:
-        if isinstance(fd, ast.FunctionDef) and any(isinstance(n, ast.Call) and isinstance(n.func, ast.Name) and n.func.id == 'tokens_to_string' for n in ast.walk(fd)):
+        if isinstance(fd, ast.FunctionDef) and fd.name != 'raw_query' and any('raw_query' in r.split() for r in pysym.sly_rules_of(fd)):
             actions.append(fd)
     rep.census['embedding_actions'] = [f'{a.name}@{a.lineno}' for a in actions]
     expected_field = {'query_str', 'query', 'if_query_str'}
@@ -467,6 +469,8 @@ INNER = [
     "select * from t where name = ''", "select * from t where name = 'it''s'", "select @v , @@sv from t", 'select "a\\"b" from t',
     "select a,b from t", "select a\n  from t\n where b = 1", "select a -- comment\n from t", "select f(a, (b + 1)) from t", "select 1.50 , 007 from t",
     "select `my col` from t", "select a from t where s = 'x  y'", "select /* c */ a from t", "select a from t where b = '\\''",
+    "(select a from t1) union (select a from t2)", "(select a from t1 where b in (1, 2)) union all (select a from t2 where c = f(1))", "(select a from t)", "((select a from t))",
+    "select a from t where b in (select c from u)", "select (a + 1) * (b - 2) from t", "select a from (select a from t) as x",
 ]
 
 
